@@ -40,7 +40,7 @@ def run(tier, seed, replay=None):
             inp = {"seed": seed * 100 + i, "msgs": (1500 if thorough else 300) if i == 0 else 5, "artefacts": per,
                    "all_subst": 1 if i < (6 if thorough else 1) else 0, "trace": sc.path("trace-%d.ndjson" % i),
                    "budget_s": 900 if thorough else 120}
-            return vlib.run_vdrv(["crc"], stdin=json.dumps(inp), timeout=3000, env={"GOGC": "off"})
+            return vlib.run_vdrv(["crc"], stdin=json.dumps(inp), timeout=3000, env={"GOGC": "off", "GOMEMLIMIT": "3GiB"})  # no periodic GC (multi-GiB scratch allocations make each cycle cost ~10 ms); collect only near the limit
         with concurrent.futures.ThreadPoolExecutor(max_workers=8) as ex:
             results = list(ex.map(one, range(nproc)))
         res = {"crc": 0, "faults": 0}
